@@ -311,7 +311,9 @@ VALUATIONS = [
     [(1 << (8 * i + 6)) - 1 for i in range(8)],
 ]
 
-IMMS = (0, 1, 63, 64, 0x7FF, 0x800, 0xFFF, 0x1000, 0x7FFFFFFF, 0x80000000, 0xFFFFFFFF, 0xFFFFF800, 0x12345678, 0xF1680000, 0x0000FFFF, 0xFFFF0000)
+IMMS = (0, 1, 63, 64, 0x7FF, 0x800, 0xFFF, 0x1000, 0x7FFFFFFF, 0x80000000, 0xFFFFFFFF, 0xFFFFF800, 0x12345678, 0xF1680000, 0x0000FFFF, 0xFFFF0000,
+        # both signs of the 12- and 24-bit fields of the A64 add / sub immediates (round 7: a helper that mishandles exactly -2^24)
+        0x00FFFFFF, 0x01000000, 0x01000001, 0xFF000000, 0xFEFFFFFF, 0xFF000001, 0xFFFFF000, 0xFFFFEFFF, 0xFFFFF001, 0x00FFF000)
 HANDLERS = ('IADD_RS', 'ISUB_R', 'IMUL_R', 'IMULH_R', 'ISMULH_R', 'INEG_R', 'IXOR_R', 'IROR_R', 'IROL_R', 'ISWAP_R')
 
 
